@@ -564,7 +564,7 @@ impl Pair {
                 self.tag += 1;
                 let tag = self.tag;
                 let mut pl = format!("m{tag}").into_bytes();
-                if *pad < crate::solo::PAD_AT_LIMIT_MINUS_1 {
+                if *pad < crate::solo::PAD_SYMBOLIC_MIN {
                     pl.extend(std::iter::repeat(b'x').take(*pad as usize));
                 } else if let Some(l) = self.ends[side.ix()].w.m.mps_send {
                     // symbolic pad: size the packet to the peer's Maximum Packet Size (or one off)
@@ -574,7 +574,7 @@ impl Pair {
                     }
                     let base = wire::encode(&p, self.ends[side.ix()].w.idw).len() as i64;
                     let want = l as i64 + (*pad as i64 - crate::solo::PAD_AT_LIMIT as i64);
-                    if want > base && want - base < 120 {
+                    if want > base && want - base < 400 {
                         pl.extend(std::iter::repeat(b'x').take((want - base) as usize));
                     }
                     p.id = None;
@@ -1060,6 +1060,11 @@ pub fn gen_pcfg(r: &mut Rng, faults: bool) -> PCfg {
         c.s_tam = *r.pick(&tam);
         c.c_mps = *r.pick(&mps);
         c.s_mps = *r.pick(&mps);
+        if r.chance(1, 6) {
+            // smaller than the client's own CONNECT: the limit of a lost connection must not
+            // stand in the way of the CONNECT that resumes the session
+            c.s_mps = Some(*r.pick(&[26u32, 28, 30]));
+        }
         c.s_ska = *r.pick(&[None, None, Some(0u16), Some(5)]);
     }
     if faults {
@@ -1113,7 +1118,7 @@ pub fn gen_pop(p: &Pair, r: &mut Rng) -> POp {
             let a = r.range(1, tam.min(3) as u64) as u8;
             alias = if r.chance(1, 3) { 0x80 | a } else { a };
         }
-        POp::Pub { side, qos: *r.pick(&[0u8, 1, 1, 2, 2]), topic: r.below(3) as u8, alias, pad: if p.ends[side.ix()].w.m.mps_send.is_some() && r.chance(1, 4) { *r.pick(&[crate::solo::PAD_AT_LIMIT_MINUS_1, crate::solo::PAD_AT_LIMIT, crate::solo::PAD_AT_LIMIT, crate::solo::PAD_AT_LIMIT_PLUS_1]) } else if r.chance(1, 5) { r.below(30) as u16 } else { 0 }, fail: c.f_writefail && r.chance(1, 40) }
+        POp::Pub { side, qos: *r.pick(&[0u8, 1, 1, 2, 2]), topic: r.below(3) as u8, alias, pad: if p.ends[side.ix()].w.m.mps_send.is_some() && r.chance(1, 4) { *r.pick(&[crate::solo::PAD_AT_LIMIT_MINUS_4, crate::solo::PAD_AT_LIMIT_MINUS_3, crate::solo::PAD_AT_LIMIT_MINUS_1, crate::solo::PAD_AT_LIMIT, crate::solo::PAD_AT_LIMIT, crate::solo::PAD_AT_LIMIT_PLUS_1]) } else if r.chance(1, 5) { r.below(30) as u16 } else { 0 }, fail: c.f_writefail && r.chance(1, 40) }
     };
     match r.weighted(&w) {
         0 => POp::Deliver { to: Side::C, n: if c.f_chunk && r.chance(1, 2) { r.range(1, 9) as u16 } else { 0 } },
